@@ -292,6 +292,26 @@ Theorem C20_op_requests_exact_paths_go :
 Proof. exact op_requests_exact_paths_go. Qed.
 Print Assumptions C20_op_requests_exact_paths_go.
 
+(* ... and with the complete model of the validator (netip.ParseAddr modelled too: go_registry):
+   the property's URL clause with no parameter and no hypothesis left *)
+Theorem C20_url_exact_full :
+  forall (avail : str -> bool) plain s r,
+    parse avail go_registry s = Some r -> r_reference r <> [] ->
+    url_is (url_manifest plain r) plain r (b "manifests") /\
+    url_is (url_blob plain r) plain r (b "blobs") /\
+    url_is (url_referrers plain r) plain r (b "referrers").
+Proof. exact (fun avail => url_exact_go avail go_ip6_ok). Qed.
+Print Assumptions C20_url_exact_full.
+
+Example C20_registry_ip6_examples :
+  go_registry (b "[::1]:5000") = true /\ go_registry (b "[1.2.3.4]") = false /\
+  go_registry (b "[::ffff:1.2.3.4]") = true /\ go_registry (b "[fe80::1%25en0]") = false /\
+  go_registry (b "[1:2:3:4:5:6:7:8]") = true /\ go_registry (b "[1:2:3:4:5:6:7:8:9]") = false /\
+  go_registry (b "[::1::]") = false /\ go_registry (b "[1:2:3:4:5:6:1.2.3.4]") = true /\
+  go_registry (b "[1:2:3:4:5:1.2.3.4]") = false /\ go_registry (b "[12345::]") = false /\
+  go_registry (b "[::01.2.3.4]") = false /\ go_registry (b "[]") = false /\ go_registry (b "a[::1]") = false.
+Proof. vm_compute. repeat split. Qed.
+
 Example C20_registry_examples :
   go_valid_registry (fun _ => true) (b "localhost:5000") = true /\
   go_valid_registry (fun _ => true) (b "[::1]:5000") = true /\
